@@ -21,6 +21,17 @@ Fixpoint hex8_fuel (n : nat) (z : N) (acc : text) : text :=
   match n with O => acc | S k => hex8_fuel k (z / 16) (hex_digit (z mod 16) :: acc) end.
 Definition hex8 (z : Z) : text := hex8_fuel 8 (Z.to_N z) [].
 
+(* f32::powf is library behaviour.  For a non-negative integral exponent below
+   64 and a result that stays exact it is the repeated product (libm returns
+   exactly representable results exactly); anything else is NaN here and the
+   checker's generators avoid it. *)
+Fixpoint pow_iter (n : nat) (a acc : Z) : Z :=
+  match n with O => acc | S k => pow_iter k a (f32_mul acc a) end.
+Definition pow_small (a b : Z) : Z :=
+  let e := f32_to_i32 b in
+  if f32_eqb (f32_of_i32 e) b && (0 <=? e)%Z && (e <? 64)%Z then pow_iter (Z.to_nat e) a f32_one
+  else f32_nan_bits.
+
 (* a float whose Display is not in the table is printed as ?float<bits>? and
    substituted by the checker (Display of f32 is library behaviour) *)
 Definition fo_of (o : oracles) : float_oracle :=
@@ -28,7 +39,7 @@ Definition fo_of (o : oracles) : float_oracle :=
                           | Some t => t
                           | None => T "?float" ++ hex8 b ++ T "?"
                           end;
-     f32_pow := fun _ _ => f32_nan_bits;
+     f32_pow := pow_small;
      f32_rem := f32_rem_exact;
      f32_parse := fun _ => None |}.
 
